@@ -15,7 +15,8 @@ EXPLANATION = (
     "region (gpa, size, user address, mmap offset at their places); (M3) the translation returns va - user_base + gpa_base "
     "exactly under user_base <= va < user_base + size and an error otherwise; (M4) every successful change notifies the "
     "backend exactly once with the handler's atomic memory handle; (M5) removal is keyed by the request's guest address "
-    "(and size for the memory object).")
+    "(and size for the memory object)."
+    ' Also: (M2) region i is mapped from file i; (M3) success value found as Ok(..) or Some(..).ok_or(..); (M4) the notification follows the replacement of the memory object; (M6) C02/D9; (M7) C20/X2 for region validators.')
 NOT_DECIDED = "Byte visibility through the mappings, vm-memory's overlap/ordering rules, mmap failures."
 
 MEM_HANDLERS = ("set_mem_table", "add_mem_region", "remove_mem_region")
